@@ -93,6 +93,8 @@ def run_case(case, tier):
                 h2["parents"] = [back_key(tuple(p)) for p in h["parents"]]
                 mapped.append(h2)
             withh, n, orphans = sources.with_hydrogens(recs, mapped)
+            from .c07 import hydrogen_contacts
+            contacts = hydrogen_contacts(withh)
             runk = obs.run_single(pdbio.dump(withh), ["-k"])
             counts["pipeline_runs"] += 1
             counts["second_stage_runs"] = counts.get("second_stage_runs", 0) + 1
@@ -101,6 +103,10 @@ def run_case(case, tier):
                 viol.append({"cls": "pka-frame-dependent-via-rotor-hydrogen", "msg": "pKa/determinants differ by %.4g between frames; the difference is reproduced "
                              "exactly by the moved run's hydrogens, %d of which sit on atoms with one heavy neighbour (frame-dependent rotamer)" % (
                                  dmax, counts["rotor_hydrogens_moved"])})
+            elif d2 > 1e-7 and contacts:
+                # a supplied hydrogen within 1.5 A of a second heavy atom is bonded to both by the
+                # distance rule: the -k re-run is not a faithful replay, nothing can be concluded
+                counts["second_stage_not_judged"] = counts.get("second_stage_not_judged", 0) + 1
             elif d2 > 1e-7:
                 viol.append({"cls": "pose-changes-pka", "msg": "pKa/determinants differ by %.4g between frames and the difference is not "
                              "reproduced by the moved run's hydrogens in the original frame (residual %.4g)" % (dmax, d2)})
@@ -110,7 +116,8 @@ def run_case(case, tier):
         name = run0.rec["names"][0]
         withh, n, orphans = sources.with_hydrogens(recs, run0.rec["confs"][name]["hydrogens"])
         movedh = pdbio.move(withh, rot, trans)
-        if pdbio.fits(movedh):
+        from .c07 import hydrogen_contacts
+        if pdbio.fits(movedh) and hydrogen_contacts(withh) == 0:
             k0 = obs.run_single(pdbio.dump(withh), ["-k"])
             kT = obs.run_single(pdbio.dump(movedh), ["-k"])
             counts["pipeline_runs"] += 2
